@@ -179,18 +179,23 @@ def gen_scenario(rng, si, kind, root, thorough=False):
     allfib = kind.startswith('allfib')
     # plates and MJDs
     if kind == 'allfib-sdss':
-        pm = [(rng.randint(1, 9999), rng.randint(50000, 55024))]
+        pm = [(rng.randint(1, 9999), 55024 if rng.random() < 0.5 else rng.randint(50000, 55023))]   # 640 fibres before MJD 55025
     elif kind == 'allfib-boss':
         plates = rng.sample(range(3500, 9999), 2)
-        pm = [(p, rng.randint(55025, 65535)) for p in plates]
+        pm = [(p, 55025 if (k == 1 and rng.random() < 0.5) else rng.randint(55026, 65535)) for k, p in enumerate(plates)]
         # an older MJD of the first plate that must be ignored by latest_mjd
         pm.append((plates[0], rng.randint(55025, pm[0][1] - 1) if pm[0][1] > 55025 else 55025))
         pm = list(dict.fromkeys(pm))
     else:
         nplates = 1 if rng.random() < 0.1 else rng.randint(2, 4)
         plates = rng.sample(range(1, 9999), nplates)
+        if kind in ('env', 'env-sdss', 'topdir') or rng.random() < 0.7:
+            # a plate number that needs zero padding in directory and file names ({0:04d})
+            small = rng.randint(1, 999)
+            if small not in plates:
+                plates[0] = small
         if kind == 'path5':
-            plates[rng.randrange(nplates)] = rng.randint(10000, 15999)
+            plates[-1] = rng.randint(10000, 15999)
         pm = []
         for p in plates:
             nm = rng.choice([1, 1, 2, 2, 3])
@@ -277,7 +282,8 @@ def gen_scenario(rng, si, kind, root, thorough=False):
         if extra_kw:
             kw.update(extra_kw)
         call = {'plate': plate, 'mjd': mjd, 'fiber': fiber, 'kwargs': kw, 'env': env, 'columns': cols,
-                'dtype': dtype or rng.choice(['i4', 'i8', 'list'])}
+                'dtype': dtype or rng.choice(['i4', 'i8', 'list']),
+                'max_rows': (len(reqs) if reqs else 12) + 2}   # rows beyond this cannot make a wrong answer right
         sc['calls'].append({'tag': tag, 'call': call, 'reqs': reqs, 'znum': znum, 'feature': feature,
                             'model': model or {'plate': plate, 'mjd': mjd, 'fiber': fiber}})
 
@@ -390,7 +396,7 @@ def gen_scenario(rng, si, kind, root, thorough=False):
 
 def scenario_plan(ctx):
     if ctx.thorough:
-        kinds = ['path'] * 70 + ['path5'] * 10 + ['env'] * 40 + ['env-sdss'] * 20 + ['topdir'] * 30 + ['allfib-sdss'] * 2 + ['allfib-boss'] * 6
+        kinds = ['path'] * 50 + ['path5'] * 8 + ['env'] * 30 + ['env-sdss'] * 15 + ['topdir'] * 20 + ['allfib-sdss'] * 2 + ['allfib-boss'] * 5
     else:
         kinds = ['path'] * 8 + ['path5'] * 2 + ['env'] * 4 + ['env-sdss'] * 2 + ['topdir'] * 4 + ['allfib-sdss'] + ['allfib-boss'] * 2
     return kinds
@@ -401,7 +407,7 @@ def scenario_plan(ctx):
 def gen_append(ctx):
     rng = ctx.rng
     cases = []
-    for k in range(ctx.n(400, 6000)):
+    for k in range(ctx.n(400, 4000)):
         n1, n2 = rng.randint(1, 4), rng.randint(1, 4)
         w1, w2 = rng.randint(1, 7), rng.randint(1, 7)
         if rng.random() < 0.3:
@@ -504,10 +510,17 @@ def correspond(ctx, proof_ok=True):
 
     # ---- evaluate model and specification in Coq: one shard per scenario (the survey is defined once per shard)
     def eval_scenario(k):
+        try:
+            return eval_scenario_(k)
+        except C.CoqEvalError as e:   # one unevaluable shard must not hide the others
+            ctx.notes.append('scenario %d: %s' % (k, str(e)[:300]))
+            return [1] * len(scenarios[k]['calls']), 0.0, ['(* not evaluated *)'] * len(scenarios[k]['calls'])
+
+    def eval_scenario_(k):
         sc = scenarios[k]
         files = [file_arrays(m) for m in sc['metas']]
         header = HEADER + 'Definition sv : survey := %s.\n' % C.coq_list([file_term(fa) for fa in files])
-        cc = C.CoqCases(ctx.work, header, 'run_cases', shard=1000)
+        cc = C.CoqCases(ctx.work, header, 'run_cases', shard=1000, timeout=300)
         terms = [call_term(cm, res) for cm, res in zip(sc['calls'], results[k])]
         v = cc.run(terms, tag='scen%03d' % k)
         return v, cc.coq_seconds, terms
